@@ -81,6 +81,14 @@ func newInterp(out *lockedBuf, sc *sched) (*interp.Interpreter, error) {
 		"Mark": reflect.ValueOf(func(id int) { sc.mark(id) }),
 		"Gate": reflect.ValueOf(sc.gate),
 		"K":    reflect.ValueOf(int(sc.parties)),
+		// a host function started by go statements of the script with operands of reference kinds
+		"Work": reflect.ValueOf(func(c chan int, p *int, m map[string]int, f func() int, id int, wg *sync.WaitGroup) {
+			v := f()
+			c <- v + id
+			*p = v + id + 1
+			m["k"] = id
+			wg.Done()
+		}),
 	}}); err != nil {
 		return nil, err
 	}
